@@ -29,6 +29,9 @@ type input struct {
 	Wallet string     `json:"wallet"` // decimal scalar; the wallet public key is scalar*G
 	Block  uint64     `json:"block"`  // coordination block
 	Salt   uint64     `json:"salt"`   // the fake chain's block hash of n is sha256(salt || n)
+	// history case (when non-nil): Hist[i] = the coordination blocks of the rounds member i
+	// (view i) goes through, oldest first, on ONE executor instance; Block is unused
+	Hist [][]uint64 `json:"hist,omitempty"`
 }
 
 // fakeChain implements only what getSeed needs; every other method of tbtc.Chain is the nil
@@ -126,6 +129,10 @@ func runView(in input, pk *ecdsa.PublicKey, ops []chain.Address, idx uint64) (ob
 }
 
 func run(in input, em *lib.Emitter, id string) {
+	if in.Hist != nil {
+		runHist(in, em, id)
+		return
+	}
 	var all []string
 	for _, v := range in.Views {
 		all = append(all, v...)
@@ -188,8 +195,8 @@ func run(in input, em *lib.Emitter, id string) {
 	new(big.Float).SetMantExp(big.NewFloat(f), 63).Int(draw)
 	pNum, pLog := dyadic(tbtc.VerifC22HeartbeatProbability)
 
-	coq := fmt.Sprintf("{| c_block := %s; c_index := %s; c_seed_exp := %s; c_draw := %s; "+
-		"c_p_num := %s; c_p_log := %s; c_views := %s |}",
+	coq := fmt.Sprintf("(CView {| c_block := %s; c_index := %s; c_seed_exp := %s; c_draw := %s; "+
+		"c_p_num := %s; c_p_log := %s; c_views := %s |})",
 		lib.ZU(in.Block), lib.ZU(idx), lib.Bytes(seedExp[:]), lib.ZBig(draw),
 		lib.ZBig(pNum), lib.Z(int64(pLog)), lib.List(views))
 
@@ -228,6 +235,246 @@ func run(in input, em *lib.Emitter, id string) {
 		In:  in,
 		Out: obsAll,
 	})
+}
+
+// ---- call histories on ONE executor instance per member ----
+
+type callObs struct {
+	Block     uint64   `json:"block"`
+	Asked     []uint64 `json:"asked"`
+	Seed      string   `json:"seed"`
+	Leader    string   `json:"leader"`
+	Checklist []int    `json:"checklist"`
+}
+
+type memberObs struct {
+	Calls    []callObs `json:"calls"`
+	OpsAfter []string  `json:"ops_after"` // the caller's operator slice after the last call
+	Mutated  bool      `json:"ops_mutated"`
+}
+
+// runHist builds, for every member (view), ONE executor with the production constructor --
+// production keeps one executor per wallet and reuses it for every window -- and runs that
+// member's history of rounds (getSeed, getLeader, getActionsChecklist) on it.  The seed the
+// property is keyed on (wallet, safe block hash) is recomputed here from the inputs alone.
+func runHist(in input, em *lib.Emitter, id string) {
+	var all []string
+	for _, v := range in.Views {
+		all = append(all, v...)
+	}
+	rank := lib.Rank(all)
+	pk := walletKey(in.Wallet)
+	pkh := bitcoin.PublicKeyHash(pk)
+	pNum, pLog := dyadic(tbtc.VerifC22HeartbeatProbability)
+
+	var obsAll []memberObs
+	var members []string
+	keyViews := make([]string, len(in.Views))
+	maxRounds := 0
+	repeatWithin, freshVsLong, mutated := false, false, false
+	firstAt := map[uint64]bool{} // blocks that are some member's first round
+	laterAt := map[uint64]bool{} // blocks that are some member's later round
+	for i, v := range in.Views {
+		ops := make([]chain.Address, len(v))
+		ids := make([]uint64, len(v))
+		for j, s := range v {
+			ops[j] = chain.Address(s)
+			ids[j] = rank[s]
+		}
+		keyViews[i] = fmt.Sprint(ids)
+		var hist []uint64
+		if i < len(in.Hist) {
+			hist = in.Hist[i]
+		}
+		fc := &fakeChain{salt: in.Salt}
+		var ex *tbtc.VerifC22Executor
+		func() {
+			defer func() { _ = recover() }() // a nil executor makes every round panic below
+			ex = tbtc.VerifC22NewExecutor(fc, pk, ops)
+		}()
+		var mo memberObs
+		var calls []string
+		seenBlock := map[uint64]bool{}
+		for pos, b := range hist {
+			co := callObs{Block: b}
+			idx := tbtc.VerifC22WindowIndex(b)
+			var seed [32]byte
+			n0 := len(fc.asked)
+			func() {
+				defer func() {
+					if r := recover(); r != nil {
+						co.Seed = fmt.Sprintf("panic: %v", r)
+					}
+				}()
+				s, err := ex.GetSeed(b)
+				if err != nil {
+					co.Seed = "error: " + err.Error()
+					return
+				}
+				seed = s
+				co.Seed = fmt.Sprintf("%x", s[:])
+			}()
+			co.Asked = append([]uint64{}, fc.asked[n0:]...)
+			func() {
+				defer func() {
+					if r := recover(); r != nil {
+						co.Leader = "PANIC"
+					}
+				}()
+				co.Leader = string(ex.GetLeader(seed))
+			}()
+			func() {
+				defer func() {
+					if r := recover(); r != nil {
+						co.Checklist = []int{255}
+					}
+				}()
+				for _, a := range ex.GetActionsChecklist(idx, seed) {
+					co.Checklist = append(co.Checklist, int(a))
+				}
+			}()
+			mo.Calls = append(mo.Calls, co)
+
+			// oracle values, from the inputs alone
+			bh := blockHash(in.Salt, b-tbtc.VerifC22SafeBlockShift)
+			seedExp := sha256.Sum256(append(append([]byte{}, pkh[:]...), bh[:]...))
+			f := rand.New(rand.NewSource(int64(binary.BigEndian.Uint64(seedExp[:8])))).Float64()
+			draw := new(big.Int)
+			new(big.Float).SetMantExp(big.NewFloat(f), 63).Int(draw)
+
+			askedZ := lib.Z(-1) // the model never expects a negative block
+			if len(co.Asked) == 1 {
+				askedZ = lib.ZU(co.Asked[0])
+			}
+			seedBytes := seed[:]
+			if strings.HasPrefix(co.Seed, "panic") || strings.HasPrefix(co.Seed, "error") {
+				seedBytes = nil
+			}
+			leader := "LPanic"
+			if co.Leader != "PANIC" {
+				leader = "(Leader " + lib.N(rank[co.Leader]) + ")" // 0 when not an operator
+			}
+			cl := make([]int64, len(co.Checklist))
+			for k, a := range co.Checklist {
+				cl[k] = int64(a)
+			}
+			calls = append(calls, fmt.Sprintf(
+				"{| k_block := %s; k_index := %s; k_seed_exp := %s; k_draw := %s; k_asked := %s; "+
+					"k_seed := %s; k_leader := %s; k_checklist := %s |}",
+				lib.ZU(b), lib.ZU(idx), lib.Bytes(seedExp[:]), lib.ZBig(draw), askedZ,
+				lib.Bytes(seedBytes), leader, lib.ListZ(cl)))
+
+			if seenBlock[b] {
+				repeatWithin = true
+			}
+			seenBlock[b] = true
+			if pos == 0 {
+				firstAt[b] = true
+			} else {
+				laterAt[b] = true
+			}
+		}
+		// the slice handed to the executor, as the caller sees it now
+		after := make([]uint64, len(ops))
+		for j, a := range ops {
+			mo.OpsAfter = append(mo.OpsAfter, string(a))
+			after[j] = rank[string(a)]
+			if string(a) != v[j] {
+				mo.Mutated = true
+				mutated = true
+			}
+		}
+		obsAll = append(obsAll, mo)
+		members = append(members, fmt.Sprintf("{| m_ops := %s; m_ops_after := %s; m_calls := %s |}",
+			lib.ListN(ids), lib.ListN(after), lib.List(calls)))
+		if len(hist) > maxRounds {
+			maxRounds = len(hist)
+		}
+	}
+	for b := range firstAt {
+		if laterAt[b] {
+			freshVsLong = true
+		}
+	}
+
+	coq := fmt.Sprintf("(CHist {| h_p_num := %s; h_p_log := %s; h_members := %s |})",
+		lib.ZBig(pNum), lib.Z(int64(pLog)), lib.List(members))
+
+	nOps := len(rank)
+	em.Tally(fmt.Sprintf("hist-operators-%03d", nOps))
+	em.Tally(fmt.Sprintf("hist-members-%d", len(in.Views)))
+	em.Tally(fmt.Sprintf("hist-longest-%d", maxRounds))
+	if repeatWithin {
+		em.Tally("hist-same-window-twice-on-one-executor")
+	}
+	if freshVsLong {
+		em.Tally("hist-window-first-for-one-member-later-for-another")
+	}
+	if mutated {
+		em.Tally("hist-operator-slice-mutated")
+	}
+	em.Case(lib.Case{
+		ID:         id,
+		Coq:        coq,
+		Key:        fmt.Sprintf("hist|%v|%v|%s|%d", keyViews, in.Hist, in.Wallet, in.Salt),
+		Nontrivial: nOps >= 2 && maxRounds >= 2,
+		Sig: map[string]interface{}{"fn": "coordination-history", "operators": nOps,
+			"members": len(in.Views), "same_window_twice": repeatWithin, "ops_mutated": mutated},
+		In:  in,
+		Out: obsAll,
+	})
+}
+
+// histBlock draws a coordination block for a history: mostly valid windows.
+func histBlock(r *lib.Rng) uint64 {
+	switch r.Intn(10) {
+	case 0:
+		return 900*uint64(r.Range(1, 1<<20)) + uint64(r.Range(1, 899)) // index 0
+	case 1:
+		return 900 * 4 * uint64(r.Range(1, 1<<30))
+	case 2:
+		return (r.U64() / 900) * 900
+	default:
+		return 900 * uint64(r.Range(1, 40000))
+	}
+}
+
+// histories draws one history per member over a pool of 2-4 windows: member 0 is the
+// long-running one (2-6 rounds, windows drawn with replacement, so the same window comes up
+// again); the last member is often a freshly started one that sees only the last window of
+// member 0; the others share member 0's history, a suffix of it, or have their own.
+func histories(r *lib.Rng, members int) [][]uint64 {
+	pool := make([]uint64, r.Range(2, 4))
+	for i := range pool {
+		pool[i] = histBlock(r)
+	}
+	draw := func(n int) []uint64 {
+		h := make([]uint64, n)
+		for i := range h {
+			h[i] = pool[r.Intn(len(pool))]
+		}
+		return h
+	}
+	out := make([][]uint64, members)
+	out[0] = draw(r.Range(2, 6))
+	if r.Chance(1, 3) {
+		// ask for the first window again at the end
+		out[0][len(out[0])-1] = out[0][0]
+	}
+	for m := 1; m < members; m++ {
+		switch {
+		case m == members-1 && r.Chance(1, 2):
+			out[m] = []uint64{out[0][len(out[0])-1]}
+		case r.Chance(1, 3):
+			out[m] = append([]uint64{}, out[0]...)
+		case r.Chance(1, 3):
+			k := r.Intn(len(out[0]))
+			out[m] = append([]uint64{}, out[0][k:]...)
+		default:
+			out[m] = draw(r.Range(1, 5))
+		}
+	}
+	return out
 }
 
 func addr(r *lib.Rng) string {
@@ -318,12 +565,12 @@ func main() {
 		r := lib.NewRng(22)
 		a, b, c := addr(r), addr(r), addr(r)
 		test := []string{a, b, c, c, b, a, a, b, c, c} // the layout of the repository's own tests
-		run(input{[][]string{test, {c, b, a}, {c, c, c, a, b}}, "7", 900, 1}, em, "corpus-test-layout")
-		run(input{[][]string{test, {a, b, c}}, "7", 3600, 1}, em, "corpus-fourth-window")
-		run(input{[][]string{test, {b, c, a, a}}, "11", 901, 1}, em, "corpus-index-zero")
-		run(input{[][]string{{a}, {a, a, a}}, "11", 1800, 2}, em, "corpus-single-operator")
-		run(input{[][]string{{}}, "11", 1800, 2}, em, "corpus-no-operators")
-		run(input{[][]string{{a, b}, {b, a}}, "5", 0, 3}, em, "corpus-block-zero")
+		run(input{Views: [][]string{test, {c, b, a}, {c, c, c, a, b}}, Wallet: "7", Block: 900, Salt: 1}, em, "corpus-test-layout")
+		run(input{Views: [][]string{test, {a, b, c}}, Wallet: "7", Block: 3600, Salt: 1}, em, "corpus-fourth-window")
+		run(input{Views: [][]string{test, {b, c, a, a}}, Wallet: "11", Block: 901, Salt: 1}, em, "corpus-index-zero")
+		run(input{Views: [][]string{{a}, {a, a, a}}, Wallet: "11", Block: 1800, Salt: 2}, em, "corpus-single-operator")
+		run(input{Views: [][]string{{}}, Wallet: "11", Block: 1800, Salt: 2}, em, "corpus-no-operators")
+		run(input{Views: [][]string{{a, b}, {b, a}}, Wallet: "5", Block: 0, Salt: 3}, em, "corpus-block-zero")
 		// seeds whose draw selects the heartbeat: found by scanning the salt
 		found := 0
 		for salt := uint64(100); found < 3 && salt < 400; salt++ {
@@ -333,10 +580,83 @@ func main() {
 			s := sha256.Sum256(append(append([]byte{}, pkh[:]...), bh[:]...))
 			f := rand.New(rand.NewSource(int64(binary.BigEndian.Uint64(s[:8])))).Float64()
 			if f < 0.0625 {
-				run(input{[][]string{{a, b, c}, {c, a, b, b}}, "13", 2700, salt}, em, fmt.Sprintf("corpus-heartbeat-%d", found))
+				run(input{Views: [][]string{{a, b, c}, {c, a, b, b}}, Wallet: "13", Block: 2700, Salt: salt}, em, fmt.Sprintf("corpus-heartbeat-%d", found))
 				found++
 			}
 		}
+	}
+
+	// --- corpus, histories: the layout of seeded change C22a (ten seats, seven operators; its
+	// sixteen windows are too long for one case: six rounds, then a fresh member), the same
+	// window asked again and again, a single operator, no operators, rounds with index 0
+	{
+		r := lib.NewRng(2222)
+		o7 := make([]string, 7)
+		for i := range o7 {
+			o7[i] = addr(r)
+		}
+		seats := []string{o7[0], o7[1], o7[2], o7[3], o7[4], o7[5], o7[3], o7[6], o7[3], o7[1]}
+		rev := make([]string, len(seats))
+		for i := range seats {
+			rev[len(seats)-1-i] = seats[i]
+		}
+		run(input{Views: [][]string{seats, rev, o7}, Wallet: "7", Salt: 5,
+			Hist: [][]uint64{{900, 1800, 2700, 3600, 4500, 900}, {4500}, {3600, 900}}}, em, "corpus-hist-long-vs-fresh")
+		run(input{Views: [][]string{seats, seats}, Wallet: "9", Salt: 6,
+			Hist: [][]uint64{{7200, 7200, 7200}, {7200}}}, em, "corpus-hist-asked-again")
+		run(input{Views: [][]string{{o7[0]}, {o7[0], o7[0]}}, Wallet: "9", Salt: 7,
+			Hist: [][]uint64{{900, 1800, 900}, {1800}}}, em, "corpus-hist-single-operator")
+		run(input{Views: [][]string{{}}, Wallet: "9", Salt: 8,
+			Hist: [][]uint64{{900, 1800}}}, em, "corpus-hist-no-operators")
+		run(input{Views: [][]string{{o7[0], o7[1], o7[2]}, {o7[2], o7[0], o7[1], o7[1]}}, Wallet: "9", Salt: 9,
+			Hist: [][]uint64{{901, 900, 31, 900}, {900, 0}}}, em, "corpus-hist-index-zero-rounds")
+	}
+
+	// --- small scope, histories: 2..4 operators, two windows, EVERY history of 1..3 rounds over
+	// them on member 0; member 1 is freshly started for the last of these rounds, member 2 went
+	// through the same windows in reverse order
+	nSmallH := o.Count(2, 8)
+	for i := 0; i < nSmallH; i++ {
+		r := rng.Fork(fmt.Sprintf("smallhist%d", i))
+		n := 2 + i%3
+		ops := make([]string, n)
+		for j := range ops {
+			ops[j] = addr(r)
+		}
+		w := [2]uint64{900 * uint64(r.Range(1, 5000)), 900 * uint64(r.Range(5001, 10000))}
+		wallet, salt := fmt.Sprint(r.Range(1, 1<<30)), r.U64()
+		for l := 1; l <= 3; l++ {
+			for bits := 0; bits < 1<<l; bits++ {
+				h := make([]uint64, l)
+				hr := make([]uint64, l)
+				for k := 0; k < l; k++ {
+					h[k] = w[(bits>>k)&1]
+					hr[l-1-k] = h[k]
+				}
+				run(input{Views: views(r, ops, 3, 8), Wallet: wallet, Salt: salt,
+					Hist: [][]uint64{h, {h[l-1]}, hr}}, em, fmt.Sprintf("smallhist-%d-%d-%d", i, l, bits))
+			}
+		}
+	}
+
+	// --- random histories
+	nHist := o.Count(90, 1200)
+	for i := 0; i < nHist; i++ {
+		r := rng.Fork(fmt.Sprintf("hist%d", i))
+		n := r.Range(2, 12)
+		switch r.Intn(10) {
+		case 0:
+			n = r.Range(12, 40)
+		case 1:
+			n = 1
+		}
+		ops := make([]string, n)
+		for j := range ops {
+			ops[j] = addr(r)
+		}
+		k := r.Range(2, 4)
+		run(input{Views: views(r, ops, k, 50), Wallet: fmt.Sprint(r.Range(1, 1<<40)), Salt: r.U64(),
+			Hist: histories(r, k)}, em, fmt.Sprintf("hist-%d", i))
 	}
 
 	// --- small scope: 1..4 operators, every window index residue, several views
@@ -349,7 +669,7 @@ func main() {
 			ops[j] = addr(r)
 		}
 		block := 900 * uint64(1+(i/4)%8)
-		run(input{views(r, ops, r.Range(2, 4), 8), fmt.Sprint(r.Range(1, 1<<30)), block, r.U64()}, em,
+		run(input{Views: views(r, ops, r.Range(2, 4), 8), Wallet: fmt.Sprint(r.Range(1, 1<<30)), Block: block, Salt: r.U64()}, em,
 			fmt.Sprintf("small-%d", i))
 	}
 
@@ -388,11 +708,15 @@ func main() {
 		if len(ops) > 40 {
 			k = 2
 		}
-		run(input{views(r, ops, k, 100), fmt.Sprint(r.Range(1, 1<<40)), randBlock(r), r.U64()}, em,
+		run(input{Views: views(r, ops, k, 100), Wallet: fmt.Sprint(r.Range(1, 1<<40)), Block: randBlock(r), Salt: r.U64()}, em,
 			fmt.Sprintf("rand-%d", i))
 	}
-	em.Close("a case is one (wallet key, coordination block, chain) evaluated through getSeed, getLeader and "+
+	em.Close("a case is either one (wallet key, coordination block, chain) evaluated through getSeed, getLeader and "+
 		"getActionsChecklist by 1-4 members whose operator lists have the same set of operators; distinct by "+
 		"(canonical views, seed, block); non-trivial when there are >= 2 operators and >= 2 views that differ "+
-		"in order or repetition", nil)
+		"in order or repetition; or a history case: 1-4 members of one wallet, each with ONE executor instance "+
+		"(production constructor) going through its own history of 1-6 rounds (getSeed, getLeader, "+
+		"getActionsChecklist per coordination block), windows repeated within and across members; distinct by "+
+		"(canonical views, histories, wallet, chain); non-trivial when there are >= 2 operators and some member "+
+		"has >= 2 rounds", nil)
 }
